@@ -233,6 +233,6 @@ STAGES = [
           strategy=strategy,
           examples={
               "quick": 2000,
-              "thorough": 30000
+              "thorough": 120000
           })
 ]
